@@ -479,7 +479,11 @@ where
 
         if let Some(existing_rrset) = tree_node.get_rrset(rtype).await? {
             for existing_data in existing_rrset.data() {
-                rrset.push_data(existing_data.clone());
+                // A record that is already present is not added again: RFC
+                // 5936 section 2.2 requires duplicates to be ignored.
+                if !rrset.data().contains(existing_data) {
+                    rrset.push_data(existing_data.clone());
+                }
             }
         }
 
